@@ -513,6 +513,9 @@ class Gen:
                     getattr(self, "g_" + k)()
             self.ops.append({"k": "run", "t": len(self.pool) - 1})
             self.ops.append({"k": "run", "t": m})
+            if "rebuild" in self.weights and r.random() < 0.5:
+                # the same calls issued again from the leaves must give an equal relation, whatever has been cached since
+                self.ops.append({"k": "rebuild", "t": len(self.pool) - 1})
         finally:
             self.force_last = False
 
@@ -1045,6 +1048,8 @@ class Gen:
                     self.ops.append({"k": "sel", "t": base["t"],
                                      "p": ["cmp", "gt", ["udfu", "itonly", ["ref", sorted(tgt.cols)[0]]], ["lit", 0]]})
                     self.pool.append(tgt.copy())
+                    if r.random() < 0.5:
+                        base["t"] = len(self.pool) - 1      # ... stacked directly on the valid twin (they would merge)
                 base["p"] = ["cmp", "gt", ["udf", "itonly", ["ref", sorted(tgt.cols)[0]]], ["lit", 0]]
                 if r.random() < 0.35:
                     base["p"] = ["cmpr", r.choice(["lt", "ge", "eq"]), ["ref", sorted(tgt.cols)[0]], ["lit", 0]]
